@@ -71,6 +71,13 @@ bool ops_map(Ctx& c, const json& s, int idx, bool& handled) {
 			if (w == 0 || (w & (w - 1)) != 0) { Proto::mismatch(fsite, "width-not-a-power-of-two", where("width " + std::to_string(w))); return false; }
 			if ((unsigned long long)m.TileCount() != w * h) { Proto::mismatch(fsite, "tiles-not-width-times-height", where(std::to_string(m.TileCount()) + " tiles for " + std::to_string(w) + " x " + std::to_string(h))); return false; }
 			// the returned object is usable: serialising it is an ordinary success or error
-			if (m.TileCount() < (1u << 22)) { try { auto out = map_bytes(m); } catch (const std::exception&) { } } }
+			if (m.TileCount() < (1u << 22)) { try { auto out = map_bytes(m);
+					// C06 on what the reader accepted: the written bytes are the consumed bytes, the saved-game word normalised and the undocumented word regenerated
+					if (!save && s.contains("unkOff") && s["unkOff"].get<std::size_t>() > 0) { const std::size_t consumed = (std::size_t)r.Position(), fo = s["flagOff"], uo = s["unkOff"]; const std::string lsite = fsite + "/roundtrip-law";
+						if (out.size() != consumed) { Proto::mismatch(lsite, "length", where("wrote " + std::to_string(out.size()) + " bytes for " + std::to_string(consumed) + " consumed")); return false; }
+						for (std::size_t i = 0; i < consumed; ++i) { if ((i >= fo && i < fo + 4) || (i >= uo && i < uo + 4)) continue; if (out[i] != img[i]) { Proto::mismatch(lsite, "bytes", where("byte " + std::to_string(i) + ": wrote " + std::to_string(out[i]) + ", consumed " + std::to_string(img[i]))); return false; } }
+						const bool flagged = img[fo] || img[fo + 1] || img[fo + 2] || img[fo + 3]; if (out[fo] != (flagged ? 1 : 0) || out[fo + 1] || out[fo + 2] || out[fo + 3]) { Proto::mismatch(lsite, "saved-flag-not-normalised", where("")); return false; }
+						Map m2; if (throws([&] { m2 = map_from(out); }) || map_bytes(m2) != out) { Proto::mismatch(lsite, "not-byte-stable", where("")); return false; } }
+				} catch (const std::exception&) { } } }
 		return true; }
 	OPS_EPILOGUE }
